@@ -22,8 +22,15 @@ Proof.
     (destruct (hello_name lower is_space cfg ip (x_idna e)) as [nm|]; cbn [name_err qualifies loaded fst]; [|reflexivity];
      destruct (subject_qualifies is_space nm); cbn [negb fst]; [|reflexivity];
      destruct (almost_full cap (length (cache s))); [|reflexivity];
-     destruct (load_from_storage (x_storage e) nm) as [x|]; [|reflexivity];
+     destruct (load_from_storage (x_storage e) (x_broken e) nm) as [x|]; [|reflexivity];
      destruct (sd_fresh x); reflexivity).
+Qed.
+
+Lemma load_from_storage_key st br nm x : load_from_storage st br nm = Some x -> exists k, alookup k st = Some x.
+Proof.
+  unfold load_from_storage. destruct (alookup nm st) as [y|] eqn:E.
+  - intros H; injection H as <-. eauto.
+  - destruct (mem_str nm br); [discriminate|]. destruct (mem_str (star_first nm) br); [discriminate|]. eauto.
 Qed.
 
 (** ---- the order in which names are offered to selectCert, whatever the policy ---- *)
@@ -116,7 +123,7 @@ Section Generic.
     exists nm, hello_name lower is_space cfg ip (x_idna e) = Some nm /\
                subject_qualifies is_space nm = true /\
                almost_full cap (length (cache s)) = true /\
-               load_from_storage (x_storage e) nm = Some x.
+               load_from_storage (x_storage e) (x_broken e) nm = Some x.
 
   Lemma lookup_x_cases s cap cfg sni ip e c s' :
     lookup_x s cap cfg sni ip e = (ROk c, s') ->
@@ -132,7 +139,7 @@ Section Generic.
       + destruct (hello_name lower is_space cfg ip (x_idna e)) as [nm|] eqn:En; [|discriminate].
         destruct (subject_qualifies is_space nm) eqn:Eq; cbn [negb]; [|discriminate].
         destruct (almost_full cap (length (cache s))) eqn:Ea.
-        * destruct (load_from_storage (x_storage e) nm) as [x|] eqn:El.
+        * destruct (load_from_storage (x_storage e) (x_broken e) nm) as [x|] eqn:El.
           -- destruct (sd_fresh x) eqn:Efr.
              ++ intros H; injection H as <- <-. right. exists x. split; [exists nm; auto|].
                 split; [exact Efr|]. split; [reflexivity|]. split; [reflexivity|]. intros c' v'; congruence.
@@ -142,7 +149,7 @@ Section Generic.
     - destruct (hello_name lower is_space cfg ip (x_idna e)) as [nm|] eqn:En; [|discriminate].
       destruct (subject_qualifies is_space nm) eqn:Eq; cbn [negb]; [|discriminate].
       destruct (almost_full cap (length (cache s))) eqn:Ea; [|discriminate].
-      destruct (load_from_storage (x_storage e) nm) as [x|] eqn:El; [|discriminate].
+      destruct (load_from_storage (x_storage e) (x_broken e) nm) as [x|] eqn:El; [|discriminate].
       destruct (sd_fresh x) eqn:Efr; [|discriminate].
       intros H; injection H as <- <-. right. exists x. split; [exists nm; auto|].
       split; [exact Efr|]. split; [reflexivity|]. split; [reflexivity|]. intros c' v'; congruence.
@@ -165,7 +172,7 @@ Section Generic.
            | None => (RErr, s)
            | Some nm =>
                if negb (subject_qualifies is_space nm) then (RErr, s)
-               else match (if almost_full cap (length (cache s)) then load_from_storage (x_storage e) nm else None) with
+               else match (if almost_full cap (length (cache s)) then load_from_storage (x_storage e) (x_broken e) nm else None) with
                     | Some x => let s1 := add_cert cap (sd_cert x) (x_victim e) s in
                                 if sd_fresh x then (ROk (sd_cert x), s1)
                                 else (defaulted_result other, remove_cert (sd_cert x) s1)
@@ -177,7 +184,7 @@ Section Generic.
            | None => (RErr, s)
            | Some nm =>
                if negb (subject_qualifies is_space nm) then (RErr, s)
-               else match (if almost_full cap (length (cache s)) then load_from_storage (x_storage e) nm else None) with
+               else match (if almost_full cap (length (cache s)) then load_from_storage (x_storage e) (x_broken e) nm else None) with
                     | Some x => let s1 := add_cert cap (sd_cert x) (x_victim e) s in
                                 if sd_fresh x then (ROk (sd_cert x), s1)
                                 else (defaulted_result other, remove_cert (sd_cert x) s1)
@@ -189,7 +196,7 @@ Section Generic.
     { destruct (hello_name lower is_space cfg ip (x_idna e)) as [nm|] eqn:En; [|left; reflexivity].
       destruct (subject_qualifies is_space nm) eqn:Eq; cbn [negb]; [|left; reflexivity].
       destruct (almost_full cap (length (cache s))) eqn:Ea; [|left; reflexivity].
-      destruct (load_from_storage (x_storage e) nm) as [x|] eqn:El; [|left; reflexivity].
+      destruct (load_from_storage (x_storage e) (x_broken e) nm) as [x|] eqn:El; [|left; reflexivity].
       right. exists x. split; [exists nm; auto|]. cbv zeta. destruct (sd_fresh x); reflexivity. }
     destruct other as [[[c0 b] v]|]; [destruct b; [left; reflexivity | exact Hmain] | exact Hmain].
   Qed.
@@ -208,9 +215,7 @@ Section Generic.
   Proof.
     intros HI Hst. destruct (lookup_x_post s cap cfg sni ip e) as [->|(x & (nm & _ & _ & _ & Hl) & ->)]; [exact HI|].
     assert (Hwf : wf_cert names_of (sd_cert x)).
-    { unfold load_from_storage in Hl. destruct (alookup nm (x_storage e)) as [y|] eqn:E.
-      - injection Hl as <-. eapply Hst; eauto.
-      - eapply Hst; eauto. }
+    { apply load_from_storage_key in Hl. destruct Hl as [k Hk]. eapply Hst; eauto. }
     destruct (sd_fresh x).
     - apply add_cert_inv; assumption.
     - apply remove_copy_inv; [apply add_cert_inv; assumption|]. left. apply Hwf.
@@ -234,13 +239,14 @@ Qed.
 Definition storage_wf (st : amap stored) : Prop :=
   forall k x, alookup k st = Some x -> In k (c_names (sd_cert x)).
 
-Theorem loaded_covers st nm x :
-  storage_wf st -> load_from_storage st nm = Some x ->
+Theorem loaded_covers st br nm x :
+  storage_wf st -> load_from_storage st br nm = Some x ->
   exists san, In san (c_names (sd_cert x)) /\ covers san nm.
 Proof.
   intros Hwf H. unfold load_from_storage in H. destruct (alookup nm st) as [y|] eqn:E.
   - injection H as <-. exists nm. split; [eapply Hwf; eauto | left; reflexivity].
-  - exists (star_first nm). split; [eapply Hwf; eauto|]. right. exists 1.
+  - destruct (mem_str nm br); [discriminate|]. destruct (mem_str (star_first nm) br); [discriminate|].
+    exists (star_first nm). split; [eapply Hwf; eauto|]. right. exists 1.
     destruct (star_first_star_k nm) as [-> Hl]. split; [lia | reflexivity].
 Qed.
 
@@ -369,7 +375,7 @@ Section DefaultX.
     (almost_full cap (length (cache s)) = true /\
      exists nm x, hello_name lower is_space cfg ip (x_idna e) = Some nm /\
                   subject_qualifies is_space nm = true /\
-                  load_from_storage (x_storage e) nm = Some x /\ sd_fresh x = true /\ c = sd_cert x /\
+                  load_from_storage (x_storage e) (x_broken e) nm = Some x /\ sd_fresh x = true /\ c = sd_cert x /\
                   exists san, In san (c_names c) /\ covers san nm).
   Proof.
     intros HI Hwf H.
